@@ -352,6 +352,11 @@ pub fn scenario_for(prop: &'static str, name: &str, params: &Value) -> Scenario 
                     cprops2.retain(|p| p.id != P_RECEIVE_MAXIMUM);
                     cprops2.push(Prop::u16(P_RECEIVE_MAXIMUM, r2 as u16));
                 }
+                // (params.m2: the new connection announces a Maximum Packet Size - it binds every new
+                // request made on it, whether the old session was resumed or had expired)
+                if let Some(m2) = params["m2"].as_u64() {
+                    cprops2.push(Prop::u32(P_MAXIMUM_PACKET_SIZE, m2 as u32));
+                }
                 open(&mut sys, !expired, cprops2);
                 if !sys.dead {
                     sys.events.push("Run(resume)".into());
